@@ -211,10 +211,15 @@ pub fn run(rep: &mut Report, tier: &str) {
             if multi {
                 // a second file with other content in another package
                 let (mut doc2, _) = random_chunk_doc(&mut rng, seed, source, 2, false);
-                if let Some(refxml::RefItem::Elem(pkgs)) = doc2.root.items.first_mut() {
-                    if let Some(refxml::RefItem::Elem(pkg)) = pkgs.items.first_mut() {
-                        if let Some(refxml::RefItem::Elem(sn)) = pkg.items.first_mut() {
-                            sn.items = vec![refxml::RefItem::Text("q".to_string(), 0, 0)];
+                // in another package - or (every other time) in the same package, so that a shared ELEMENTS container holds elements
+                // that belong to the other file only
+                let shared_package = case % 6 == 0;
+                if !shared_package {
+                    if let Some(refxml::RefItem::Elem(pkgs)) = doc2.root.items.first_mut() {
+                        if let Some(refxml::RefItem::Elem(pkg)) = pkgs.items.first_mut() {
+                            if let Some(refxml::RefItem::Elem(sn)) = pkg.items.first_mut() {
+                                sn.items = vec![refxml::RefItem::Text("q".to_string(), 0, 0)];
+                            }
                         }
                     }
                 }
@@ -224,6 +229,9 @@ pub fn run(rep: &mut Report, tier: &str) {
                     continue;
                 }
                 sub.count("documents.two_files", 1);
+                if shared_package {
+                    sub.count("documents.two_files_sharing_a_package", 1);
+                }
             }
             check_file(sub, &model, &file, source, &bytes, multi);
             if case < 2 {
@@ -233,6 +241,7 @@ pub fn run(rep: &mut Report, tier: &str) {
     });
     rep.require("documents", (n / 2) as u64);
     rep.require("documents.with_emptied_elements", (n / 20) as u64);
+    rep.require("documents.two_files_sharing_a_package", (n / 40) as u64);
     rep.require("pairs.accepted_by_strict_load", 2000);
     rep.require("pairs.rejected_by_strict_load", 2000);
     rep.require("set_version.ok", 1000);
